@@ -94,7 +94,11 @@ func verifDebPayload(o scen.Options) {
 			v.Assert(e.Uname == w.Owner && e.Gname == w.Group, "deb-file-owner-group")
 		case 'd', 'i':
 			v.Assert(e.Name == name+"/" && e.Type == '5', "deb-dir-name-type")
-			v.Assert(e.Mode == scen.UnixMode(w.Mode), "deb-dir-mode")
+			if w.FromTree {
+				v.Assert(e.Mode == scen.UnixMode(w.Mode), "deb-dir-mode-of-tree-directory")
+			} else {
+				v.Assert(e.Mode == scen.UnixMode(w.Mode), "deb-dir-mode")
+			}
 			v.Assert(e.Uname == w.Owner && e.Gname == w.Group, "deb-dir-owner-group")
 		case 'l':
 			v.Assert(e.Name == name && e.Type == '2', "deb-symlink-name-type")
@@ -102,3 +106,6 @@ func verifDebPayload(o scen.Options) {
 		}
 	}
 }
+
+// Verif_C01_C_DebSources_Thorough: a tree, a directory source expanded by the glob model, an on-disk symlink.
+func Verif_C01_C_DebSources_Thorough() { verifDebPayload(scen.Options{Second: -4}) }
